@@ -51,8 +51,25 @@ NEED_DEPTH = {"under_add": lambda K: K + 1, "under_add_left": lambda K: K + 1, "
               "first_arg_of_or": lambda K: K + 1, "let_then_return": lambda K: K + 1}
 
 
+# an error handed to the next iteration in an argument the loop never looks at: with or without the trampoline the call's result is that error
+ERR_LOOPS = [
+    ("err_arg_if_else", "tail", "fn r(n: int, junk: int, acc: int)->int{{ if(n <= 0, acc, r(n - 1, if(n == {J}, error('EJ'), 0), acc + n)) }}\nlet x = r({K}, 0, 0);"),
+    ("err_arg_under_add", "nontail", "fn r(n: int, junk: int, acc: int)->int{{ if(n <= 0, acc, 0 + r(n - 1, if(n == {J}, error('EJ'), 0), acc + n)) }}\nlet x = r({K}, 0, 0);"),
+    ("err_arg_bool_or", "tail", "fn r(n: int, junk: int)->bool{{ n <= 0 || r(n - 1, if(n == {J}, error('EJ'), 0)) }}\nlet x = r({K}, 0);"),
+    ("err_arg_if_method", "tail", "fn r(n: int, junk: int, acc: int)->int{{ (n <= 0).if(acc, r(n - 1, if(n == {J}, error('EJ'), 0), acc + n)) }}\nlet x = r({K}, 0, 0);"),
+    ("err_arg_default_param", "tail", "fn r(n: int, acc: int, junk: int ?= 0)->int{{ if(n <= 0, acc, if(n == {J}, r(n - 1, acc + n, error('EJ')), r(n - 1, acc + n))) }}\nlet x = r({K}, 0);"),
+    ("err_arg_nested_fn", "tail", "fn outer(k: int)->int{{ fn r(n: int, junk: int, acc: int)->int{{ if(n <= 0, acc, r(n - 1, if(n == {J}, error('EJ'), 0), acc + n)) }} r(k, 0, 0) }}\nlet x = outer({K});"),
+]
+
+
 def gen_cases(ctx):
     cases = []
+    for name, cls, tmpl in ERR_LOOPS:
+        for K in (1, 3, 10, 200):
+            for J in sorted({1, 2, K, K // 2 + 1, K + 5}):
+                c = {"source": tmpl.format(K=K, J=J), "exports": ["x"], "dump": {"per": 16, "nodes": 100}, "limits": {"ud_call": BIG}, "id": f"C07-{name}-{K}-{J}", "timeout_ms": 60000,
+                     "meta": {"name": name, "cls": cls, "K": K, "J": J, "errfam": True, "expect_error": 1 <= J <= K, "expect": (True if "bool" in name else S(K)), "lim": {"ud_call": BIG}}}
+                cases.append(c)
     for name, cls, tmpl, fres in PLACEMENTS:
         Ks = [0, 1, 2, 3, 10] + ([1000] if cls != "tail" else [1000, 100000]) if not ctx.quick else [0, 1, 3, 10] + ([300] if cls != "tail" else [1000, 20000])
         for K in Ks:
@@ -83,6 +100,20 @@ def decide(ctx, c, o):
         ctx.verdicts.violation(f"{name}|{fail['kind']}" + (":" + core.panic_sig(fail.get("panic")) if fail["kind"] == "panic" else ""), c,
                                {"expected": meta, "observed": fail})
         return False
+    if meta.get("errfam"):
+        if fail is not None:
+            ctx.verdicts.violation(f"{name}|unexpected_violation:{fail.get('violation')}", c, {"expected": meta, "observed": fail})
+            return False
+        out = batch.binding_outcome(o["bindings"].get("x"))
+        if meta["expect_error"]:
+            good = out["kind"] == "error" and "EJ" in str(out.get("raw"))
+        else:
+            good = batch.matches(meta["expect"], out)
+        if not good:
+            ctx.verdicts.violation(f"{name}|{'error_argument_of_a_self_call_lost' if meta['expect_error'] else 'result_differs'}", c,
+                                   {"expected": "error EJ" if meta["expect_error"] else meta["expect"], "observed": out.get("raw")})
+            return False
+        return True
     depth_lim, rec_lim = lim.get("depth"), lim.get("recursion")
     expect_violation = None
     if cls == "tail":
